@@ -36,7 +36,9 @@ RULE = ('scenario = `initial`, 0–6 users (capabilities from a vocabulary of pl
         'capability edits interleaved with queries; every query is asked for the capability, its inverse, a case variant and again '
         'with cold caches, under one of the 8 flag combinations. A scenario is non-trivial when at least one decision left the '
         'global-default branch; distinct = distinct operation list. Streams: wf (all strings inside the theorems\' domain, all '
-        'oracles on), hostile (arbitrary strings, correspondence + totality only), algebra (string functions), exhaustive (small universe, thorough).')
+        'oracles on), hostile (arbitrary strings, correspondence + totality only), algebra (string functions), lower-contract and '
+        'channel-key (oracle only: channel names with cased letters outside ASCII, every spelling with the same str.lower() must reach '
+        'the same record through getChannel, setChannel, checkCapability and flush + reload; whole BMP in thorough), exhaustive (small universe, thorough).')
 
 # =====================================================================================
 # independent oracle, written from the property statement (no ircdb code used)
@@ -633,6 +635,64 @@ def lower_contract_cases(impl, r, whole_bmp):
         yield Case({'op': 'lower-contract', 'cp': cp}, oracle_ok=ok, oracle_msg=msg, tags=('lower-contract',) if cp >= 0x80 else (), kind='lower-contract')
     impl.overfold = overfold
 
+# ---- one key function for the channel table (oracle only) -------------------------------
+def channel_key_case(impl, cp, with_reload=True):
+    """A channel stored under one spelling is found under every spelling with the same str.lower() — through getChannel,
+    setChannel, checkCapability and a flush + reload of channels.conf.  (The model lowers ASCII only; here the
+    implementation is held against the statement directly, for names with cased letters outside ASCII.)"""
+    import tempfile
+    ircdb = impl.ircdb
+    c = chr(cp)
+    v0 = '#' + c + 'cole'
+    variants = [v for v in dict.fromkeys([v0, '#' + c.lower() + 'cole', '#' + c.upper() + 'cole', v0.upper(), v0.lower()])
+                if v.lower() == v0.lower() and len(v) <= 50 and impl.b.ircutils.isChannel(v)]
+    ok = True; msg = ''
+    def fail(m):
+        nonlocal ok, msg
+        if ok: ok = False; msg = m
+    C = ircdb.ChannelsDictionary()
+    U = ircdb.UsersDictionary()
+    ch = C.getChannel(v0); ch.addCapability('-topic'); ch.setDefaultCapability(False)
+    C.setChannel(v0, ch)                                   # what `channel capability add` does
+    def probe(D, where):
+        for v in variants:
+            got = D.getChannel(v)
+            if '-topic' not in got.capabilities or got.defaultAllow:
+                fail('%s: channel %r was given -topic and defaultAllow=False as %r, but getChannel(%r) answers a record without them'
+                     % (where, v0.lower(), v0, v))
+            r1 = ircdb.checkCapability('zed!x@y', v + ',topic', users=U, channels=D)
+            r2 = ircdb.checkCapability('zed!x@y', v + ',anythingelse', users=U, channels=D)
+            if r1 is not False or r2 is not False:
+                fail('%s: %r carries -topic and defaultAllow=False (set as %r), but checkCapability(%r) = %r and (%r) = %r'
+                     % (where, v0.lower(), v0, v + ',topic', r1, v + ',anythingelse', r2))
+    probe(C, 'in memory')
+    if with_reload:
+        fd, path = tempfile.mkstemp(prefix='c03chan', suffix='.conf'); os.close(fd)
+        try:
+            C.filename = path; C.flush()
+            D = ircdb.ChannelsDictionary(); D.open(path)
+            probe(D, 'after flush + reload')
+            # NB probing creates records for spellings that miss: count the distinct record objects
+            if len(set(id(x) for x in D.channels.values())) != 1:
+                fail('after flush + reload the spellings %r of one channel resolve to %d different records'
+                     % (variants, len(set(id(x) for x in D.channels.values()))))
+        finally:
+            try: os.unlink(path)
+            except OSError: pass
+    return Case({'op': 'channel-key', 'cp': cp, 'reload': with_reload}, oracle_ok=ok, oracle_msg=msg,
+                tags=('channel-key', 'channel-key-reload') if with_reload else ('channel-key',), kind='channel-key')
+
+def channel_key_cases(impl, r, whole_bmp):
+    fixed = [0xc9, 0xe9, 0xd6, 0x3a3, 0x416, 0x130, 0x1e9e, 0x212a, 0x10a0]
+    cps = list(range(0x80, 0x10000)) if whole_bmp else fixed + list(range(0xc0, 0x180)) + [r.randrange(0x180, 0x10000) for _ in range(3000)]
+    n = 0
+    for cp in cps:
+        if 0xD800 <= cp < 0xE000: continue
+        c = chr(cp)
+        if not c.isalpha() or (c.lower() == c and c.upper() == c): continue
+        n += 1
+        yield channel_key_case(impl, cp, with_reload=(whole_bmp or cp in fixed or n % 8 == 0))
+
 # ---- exhaustive small universe ---------------------------------------------------------
 def exhaustive_scenarios():
     """1 user (+ an unknown sender) × capability foo × every placement/polarity × all flags"""
@@ -676,6 +736,8 @@ def explore(ctx, n_wf, n_hostile, n_alg, exhaustive=False, corpus=(), stream='c0
         c, ls = alg_case(impl, gen_alg_string(r)); add(c, ls)
     for c in lower_contract_cases(impl, r, whole_bmp=exhaustive):
         cases.append(c)
+    for c in channel_key_cases(impl, r, whole_bmp=exhaustive):
+        cases.append(c)
     if exhaustive:
         for ops in exhaustive_scenarios():
             c, ls, d = run_scenario(impl, ops, True, 'exhaustive'); decisions += d
@@ -716,7 +778,7 @@ def run(ctx):
     return verdict.conclude(PROPERTY, ctx.tier, ctx.seed, build, cases, search=search, rule=RULE,
                             trusted_base=TRUSTED,
                             assumptions=['Python asserts enabled', 'world.testing is False',
-                                         'channel and user names in generated cases are ASCII (str.lower / re.I outside ASCII not modelled)',
+                                         'channel and user names in the model-compared cases are ASCII (str.lower outside ASCII is a parameter of the theorems; the channel-key stream holds the implementation against the statement for cased letters outside ASCII, through getChannel / setChannel / checkCapability / flush + reload)',
                                          'the clock does not run backwards within a scenario'],
                             extra={'decisions': decisions, 'exhaustive_small_universe': bool(ctx.thorough),
                                    'observation_channel_names_folded_beyond_rfc1459 (str.lower in getChannel; same record for)': getattr(explore, 'overfold', [])},
@@ -729,6 +791,10 @@ def replay(ctx, path):
         print(json.dumps(d, indent=1)[:3000]); return 0
     inp = c['input']
     impl = Impl()
+    if inp.get('op') == 'channel-key':
+        c2 = channel_key_case(impl, inp['cp'], inp.get('reload', True))
+        print('channel names built on U+%04X %r' % (inp['cp'], chr(inp['cp']))); print('oracle:', c2.oracle_ok, c2.oracle_msg)
+        return 0 if c2.oracle_ok else 1
     if inp.get('op') == 'algebra':
         c2, _ = alg_case(impl, inp['s'])
         print('string %r' % inp['s']); print(c2.impl); print('oracle:', c2.oracle_ok, c2.oracle_msg)
